@@ -361,4 +361,72 @@ theorem allLoop_spec (env : PTN.Env) (eng : Engines E) (f : Flags) (color : Colo
       simp [allTargets, labelsOf]
     · rw [hs] at hc; simp at hc
 
+
+/-! ### every item of every run -/
+
+theorem allLoop_items (env : PTN.Env) (eng : Engines E) (f : Flags) (color : Color) :
+    ∀ fuel it (w b : Analyzer E), ∀ i ∈ (allLoop env eng f color fuel it w b).1,
+      (∃ p m, i = .plyLabel p m) ∨ ∃ p, Report eng f p i := by
+  intro fuel
+  induction fuel with
+  | zero => intro it w b i hi; simp [allLoop] at hi
+  | succ n ih =>
+    intro it w b i hi
+    unfold allLoop at hi
+    split at hi
+    · simp at hi
+    · simp at hi
+    · split at hi
+      · simp at hi
+      · rename_i p _
+        split at hi
+        · simp at hi
+        · split at hi
+          · rw [mem_bind] at hi
+            rcases hi with hi | ⟨_, _, hi⟩
+            · simp at hi; subst hi; exact Or.inl ⟨_, _, rfl⟩
+            · rw [mem_bind] at hi
+              rcases hi with hi | ⟨w', _, hi⟩
+              · exact Or.inr ⟨p, analyzeWith_report env eng f w p i hi⟩
+              · exact ih _ w' b i hi
+          · split at hi
+            · rw [mem_bind] at hi
+              rcases hi with hi | ⟨_, _, hi⟩
+              · simp at hi; subst hi; exact Or.inl ⟨_, _, rfl⟩
+              · rw [mem_bind] at hi
+                rcases hi with hi | ⟨b', _, hi⟩
+                · exact Or.inr ⟨p, analyzeWith_report env eng f b p i hi⟩
+                · exact ih _ w b' i hi
+            · exact ih _ w b i hi
+
+/-- **whatever the flags and the file**: every printed item is a `%d. %s` line of `-all` or a report of an analyzer
+about the position it was handed (`Report`) -/
+theorem execute_items (env : PTN.Env) (eng : Engines E) (f : Flags) (input : Bytes) :
+    ∀ i ∈ (execute env eng f input).1, (∃ p m, i = .plyLabel p m) ∨ ∃ p, Report eng f p i := by
+  intro i hi
+  by_cases hall : f.all = false
+  · obtain ⟨p, _, h⟩ := execute_single_report env eng f input hall i hi
+    exact Or.inr ⟨p, h⟩
+  · have hall' : f.all = true := by simpa using hall
+    unfold execute at hi
+    split at hi
+    · simp at hi
+    · split at hi
+      · simp at hi
+      · simp only [hall', Bool.not_true, Bool.false_eq_true, if_false] at hi
+        split at hi
+        · simp at hi
+        · rw [mem_bind] at hi
+          rcases hi with hi | ⟨w, _, hi⟩
+          · rw [buildAnalysis_fst] at hi; simp at hi
+          · rw [mem_bind] at hi
+            rcases hi with hi | ⟨b, _, hi⟩
+            · rw [buildAnalysis_fst] at hi; simp at hi
+            · split at hi
+              · simp at hi
+              · rw [mem_bind] at hi
+                rcases hi with hi | ⟨it, _, hi⟩
+                · exact allLoop_items env eng f _ _ _ w b i hi
+                · split at hi <;> simp at hi
+
 end Tak.CmdAnalyze
